@@ -181,7 +181,22 @@ def edit_case(draw):
 
 
 @st.composite
+def _array_soup(draw):
+    """array constants with independently drawn row lengths (ragged about half of the time), in a context"""
+    el = st.sampled_from(['1', '2', '0.5', '"a"', 'TRUE', '#N/A', '-1', '007', '1E+2'])
+    rows = draw(st.lists(st.lists(el, min_size=1, max_size=3), min_size=1, max_size=3))
+    if draw(st.booleans()):
+        rows = [r[:len(rows[0])] + rows[0][len(r):] for r in rows]      # same length as the first row
+    sep = draw(st.sampled_from([',', ', ', ' ,']))
+    arr = '{' + draw(st.sampled_from([';', '; '])).join(sep.join(r) for r in rows) + '}'
+    ctx = draw(st.sampled_from(['=%s', '=SUM(%s)', '=1+%s', '=%s*2', '=INDEX(%s,1,1)', '={1}&%s', '=(%s)', '=-%s%%']))
+    return {'s': ctx.replace('%s', arr).replace('%%', '%'), 'src': 'soup', 'pool': 'array'}
+
+
+@st.composite
 def soup_case(draw):
+    if draw(st.integers(0, 11)) == 0:
+        return draw(_array_soup())
     clean = draw(st.integers(0, 2)) == 0
     pool = CLEAN if clean else DICT
     toks = draw(st.lists(st.sampled_from(pool), min_size=1, max_size=12))
